@@ -1,4 +1,5 @@
 import MoreExec.Props.C17
+import MoreExec.Props.C17NoCancel
 #print axioms MoreExec.Proxy.C17_transparent
 #print axioms MoreExec.Proxy.C17_direct_dunder_agrees_iff
 #print axioms MoreExec.Proxy.C17_direct_dunder_not_transparent
@@ -6,3 +7,9 @@ import MoreExec.Props.C17
 #print axioms MoreExec.Proxy.C17_table_all_transparent
 #print axioms MoreExec.Proxy.C17_nonblocking
 #print axioms MoreExec.Proxy.C17_nocancel
+#print axioms MoreExec.NoCancel.C17_nocancel_source_facts
+#print axioms MoreExec.NoCancel.C17_nocancel_returns_false
+#print axioms MoreExec.NoCancel.C17_nocancel_shields
+#print axioms MoreExec.NoCancel.C17_nocancel_mirrors
+#print axioms MoreExec.NoCancel.C17_nocancel_resolve_mirrors
+#print axioms MoreExec.NoCancel.C17_nocancel_code_mirrors
